@@ -146,7 +146,7 @@ def jitter(rng: random.Random, name: str, value):
         return value * rng.choice([0.5, 0.9, 1.0, 1.0, 1.1, 1.5])
     if isinstance(value, list):
         out = [jitter(rng, name, v) for v in value]
-        if len(out) == 2 and rng.random() < 0.25:
+        if len(out) == 2 and rng.random() < 0.4:
             out.reverse()        # ranges given in descending order are valid unless the config model says otherwise
         return out
     return value
